@@ -7,6 +7,7 @@
 (* renderings of a tree as a token sequence:                                *)
 (*   "full"   every compound operand in parentheses                        *)
 (*   "min"    parentheses exactly where the table requires them            *)
+(*   "wrapmin" the root's operands in redundant parentheses, minimal inside  *)
 (*   "nopar"  no parentheses at all (for trees with one needed pair this   *)
 (*            is the rendering "with one needed pair removed")              *)
 (*                                                                         *)
@@ -73,6 +74,7 @@ RECURSIVE R(_, _), W(_, _, _), Sep(_, _, _), Its(_, _, _)
 W(t, req, mode) ==
   LET inner == R(t, mode) IN
   IF mode = "nopar" THEN inner
+  ELSE IF mode = "wrapmin" THEN (IF t.n \in Atoms \cup UTests \cup {"elist"} THEN R(t, "min") ELSE <<"(">> \o R(t, "min") \o <<")">>)
   ELSE IF mode = "full" THEN (IF t.n \in Atoms \cup UTests \cup {"elist"} THEN inner ELSE <<"(">> \o inner \o <<")">>)
   ELSE IF Prec(t) < req THEN <<"(">> \o inner \o <<")">> ELSE inner
 
@@ -134,4 +136,6 @@ R(t, mode) ==
 RenderFull(t)  == R(t, "full")
 RenderMin(t)   == R(t, "min")
 RenderNoPar(t) == R(t, "nopar")
+\* the operands of the root in (redundant) parentheses, each rendered minimally inside
+RenderWrapMin(t) == R(t, "wrapmin")
 =============================================================================
